@@ -572,7 +572,9 @@ pub fn run(run: &'static Run) {
         "spec = anchor + up to d suffixes, the last of which may be a 'final' suffix; anchors of repo main/packed: {:?}; \
          suffixes: all = {:?} + {:?}, deep = {:?}, final = {:?}; \
          bounds: every repo d<=1 over all suffixes; main d<={} over the deep suffixes{}; \
-         ranges: '^a', 'a..b', 'a...b' for every ordered pair of 15 revs (incl. empty, missing and ambiguous ones) plus 10 malformed range forms, on main, detached, empty{}. \
+         final forms: quick = ^! ^@ ^- after every bare main anchor; thorough = all six after every bare anchor of every repo, and ^! ^@ ^- ^-2 after main anchor + one deep suffix; \
+         generation rules: nothing but final forms is appended to ':/regex' anchors, '@{{..}}' suffixes only directly after the anchor, anchors git aborts on are used bare; \
+         ranges: '^a', 'a..b', 'a...b' for every ordered pair of 15 revs (quick: 10 on main, 5 on detached/empty; incl. empty, missing and ambiguous ones) plus 10 malformed range forms, on main, detached, empty{}. \
          Non-trivial = git resolves the spec.",
         fixtures[0].anchors,
         SUFFIX_CORE,
@@ -635,9 +637,9 @@ pub fn run(run: &'static Run) {
             if thorough {
                 let packed_alive = alive[1].clone();
                 compose(&main_alive, SUFFIX_DEEP, 3, &[], &mut |s| out(0, s));
-                compose(&main_alive, SUFFIX_DEEP, 2, SUFFIX_FINAL, &mut |s| out(0, s));
-                compose(&main_alive, all, 2, few_finals, &mut |s| out(0, s));
-                compose(&packed_alive, all, 2, few_finals, &mut |s| out(1, s));
+                compose(&main_alive, SUFFIX_DEEP, 2, few_finals, &mut |s| out(0, s));
+                compose(&main_alive, all, 2, &[], &mut |s| out(0, s));
+                compose(&packed_alive, all, 2, &[], &mut |s| out(1, s));
             } else {
                 compose(&main_alive, SUFFIX_DEEP, 2, &[], &mut |s| out(0, s));
             }
@@ -690,7 +692,7 @@ pub fn run(run: &'static Run) {
     // ---- the batch oracle itself is cross-checked against `git rev-parse` (thorough): all specs with <= 1 suffix on main
     if thorough && !run.is_replay() {
         let mut specs = Vec::new();
-        compose(&fixtures[0].anchors, all, 1, &[], &mut |s| specs.push(s));
+        compose(&alive[0], SUFFIX_DEEP, 1, &[], &mut |s| specs.push(s));
         run.sub_with(
             "oracle-cross-check",
             vkit::Opts::default().chunk(1024),
@@ -700,6 +702,7 @@ pub fn run(run: &'static Run) {
                 let a = git_outcome(&fx.dir, &c.spec);
                 let b = BATCH.get().and_then(|m| m.get(&(c.repo, c.spec.clone())).cloned());
                 match (a, b) {
+                    (_, None) => ok_trivial("not-answered-by-batch"),
                     (Outcome::Revs(x), Some(Outcome::Revs(y))) if x == y => ok_trivial("oracles-agree/revs"),
                     (Outcome::Error(_), Some(Outcome::Error(_))) => ok_trivial("oracles-agree/error"),
                     (a, b) => vkit::machinery!("cat-file --batch-check and rev-parse disagree on {:?}: {a:?} vs {b:?}", c.spec),
